@@ -73,6 +73,7 @@ Section DriverReach.
     - destruct (alive_phase _); simpl; auto. now apply reachable_step.
     - destruct (alive_phase _); simpl; auto. now apply reachable_step.
     - destruct (alive_phase _); simpl; auto.
+    - destruct (phs _); simpl; auto. rs.
     - now apply reachable_step.
     - now apply reachable_step.
     - now apply settle_reach.
